@@ -25,6 +25,9 @@
               is closed by a word boundary for markers ending in a word character (else the
               marker ``c`` swallows ``case``); the tokenizer skips a line exactly when the
               captured name equals the same, unescaped, marker.
+  C11-MEMO    a delimiter-taking function that memoises its result keys the memo on all its
+              delimiter parameters, injectively: ``lru_cache`` over the argument tuple, or a
+              hand-rolled mapping indexed by the tuple of the parameters themselves.
   C11-SHARED  (with C17-MODULE) no module- or class-level container is mutated by lexing or
               parsing code.
 Not decided: output equality under delimiter rewriting as such (value level); the liquid
@@ -71,7 +74,7 @@ REVIEWED_LITERAL = {
 
 def run(repo: Repo) -> Result:
     res = Result(PID)
-    res.rules = ["C11-ESCAPE", "C11-PLUMB", "C11-LITERAL", "C11-IDENT", "C11-MARKER"]
+    res.rules = ["C11-ESCAPE", "C11-PLUMB", "C11-LITERAL", "C11-IDENT", "C11-MARKER", "C11-MEMO"]
     res.explanation = "taint of delimiter parameters into regex patterns; name-by-name plumbing of the configuration through the memoised factories; no hard-coded delimiters; per-instance identity of environments/parsers/tags"
     res.assumptions = ["delimiters do not collide with each other or with the template text (the property's own precondition)"]
     lm = LexModel(repo)
@@ -247,8 +250,88 @@ def run(repo: Repo) -> Result:
     if "return Parser(env)" not in text(gp.node):
         res.add("C11-IDENT", gp.qual, "parser", "get_parser must build Parser(env) for exactly the environment it is asked for", gp.file, gp.line)
     _check_marker(repo, res)
-    res.stats.update(tag_inits=n_tag, template_config_keywords=cfg)
+    n_memo = _check_memo(repo, res)
+    res.stats.update(tag_inits=n_tag, template_config_keywords=cfg, memoised_factories=n_memo)
     return res
+
+
+def _check_memo(repo: Repo, res: Result) -> int:
+    """C11-MEMO: a function that takes delimiter parameters and memoises its result must key the
+    memo on *all* of them, injectively.  ``functools.lru_cache`` / ``cache`` do (the key is the
+    argument tuple).  A hand-rolled memo — a module- or class-level mapping read and written
+    inside the function — must be indexed by a tuple that holds every delimiter parameter as is:
+    a concatenation, a join, a format string or a subset of the parameters maps two different
+    configurations to one entry, and the second environment lexes with the first one's
+    delimiters."""
+    n = 0
+    for f in repo.all_functions():
+        ds = [p for p in f.params() if p in DELIMS]
+        if not ds:
+            continue
+        decos = [text(d.func if isinstance(d, ast.Call) else d).split(".")[-1] for d in f.node.decorator_list]
+        if any(d in ("lru_cache", "cache") for d in decos):
+            n += 1
+            res.ob(f"memo:{f.qual}")
+            res.sample({"rule": "C11-MEMO", "function": f.qual, "memo": "lru_cache over the argument tuple"})
+            continue
+        # containers that outlive the call: module-level names, self./cls. attributes
+        local_assign = {}
+        for st in walk_no_nested(f.node):
+            if isinstance(st, ast.Assign):
+                for t in st.targets:
+                    if isinstance(t, ast.Name):
+                        local_assign[t.id] = st.value
+                    elif isinstance(t, ast.Tuple):
+                        pass
+        locals_ = set(local_assign) | set(f.params())
+
+        def persistent(e: ast.AST) -> bool:
+            if isinstance(e, ast.Name):
+                return e.id not in locals_ and e.id in f.module.assigns
+            if isinstance(e, ast.Attribute) and isinstance(e.value, ast.Name) and e.value.id in ("self", "cls"):
+                return True
+            return False
+
+        keys = []
+        for x in ast.walk(f.node):
+            if isinstance(x, ast.Subscript) and persistent(x.value):
+                keys.append((x, x.slice))
+            elif isinstance(x, ast.Call) and isinstance(x.func, ast.Attribute) and x.func.attr in ("get", "setdefault", "pop") and persistent(x.func.value) and x.args:
+                keys.append((x, x.args[0]))
+            elif isinstance(x, ast.Compare) and len(x.ops) == 1 and isinstance(x.ops[0], (ast.In, ast.NotIn)) and persistent(x.comparators[0]):
+                keys.append((x, x.left))
+        # only containers the function itself stores into are memos (a constant table it merely
+        # reads is not)
+        written = {text(x.value) for x in ast.walk(f.node) if isinstance(x, ast.Subscript) and isinstance(x.ctx, ast.Store) and persistent(x.value)}
+        written |= {text(x.func.value) for x in ast.walk(f.node) if isinstance(x, ast.Call) and isinstance(x.func, ast.Attribute) and x.func.attr in ("setdefault", "update") and persistent(x.func.value)}
+
+        def container(node):
+            if isinstance(node, ast.Subscript):
+                return text(node.value)
+            if isinstance(node, ast.Call):
+                return text(node.func.value)
+            return text(node.comparators[0])
+
+        keys = [(node, k) for node, k in keys if container(node) in written]
+        if not keys:
+            continue
+        n += 1
+        res.ob(f"memo:{f.qual}", len(keys))
+        # which delimiter parameters the result depends on: those read outside the key expressions
+        for node, k in keys:
+            seen_k = set()
+            while isinstance(k, ast.Name) and k.id in local_assign and k.id not in seen_k:
+                seen_k.add(k.id)
+                k = local_assign[k.id]
+            if isinstance(k, ast.Tuple) and all(isinstance(e, ast.Name) for e in k.elts):
+                missing = [d for d in ds if d not in {e.id for e in k.elts}]
+                if missing:
+                    res.add("C11-MEMO", f.qual, f"key-misses:{','.join(missing)}", f"{f.qual} memoises its result under a key that does not contain {missing}: two configurations that differ only there share one entry, and the second lexes with the first one's delimiters", f.file, node.lineno)
+            else:
+                res.add("C11-MEMO", f.qual, "key-not-injective", f"{f.qual} memoises its result under `{text(k)[:70]}`, which is not the tuple of its delimiter parameters: different configurations can produce the same key (e.g. a concatenation: '{{%' + '%}}' ... vs a shifted split of the same characters), and the second one lexes with the first one's delimiters", f.file, node.lineno)
+    if n < 1:
+        raise AnchorMissing("C11-MEMO: no memoised delimiter-taking factory found (get_lexer expected)")
+    return n
 
 
 def _expand_star(repo: Repo, f, call: ast.Call):
@@ -553,6 +636,23 @@ def _check_marker(repo: Repo, res: Result) -> None:
             res.add("C11-MARKER", tk.qual, f"skip-other:{sorted(cc)[-1][:50]}", "_tokenize_liquid_expression skips a line on a test other than `name == comment_start_string` (startswith / prefix tests swallow tag names that begin with the marker)", tk.file, st.lineno)
 
 
+def _hand_memo(repo: Repo, key: str):
+    """get_lexer with a hand-rolled module-level memo under the given key expression"""
+    from ..selftest import text_edit
+
+    ov = text_edit(repo, "liquid/lex.py", "@lru_cache(maxsize=128)\ndef get_lexer(", "_LEXERS: dict = {}\n\n\ndef get_lexer(", 1)
+    src = ov["liquid/lex.py"]
+    a = '    """Return a template lexer using the given tag and statement delimiters."""\n'
+    assert src.count(a) == 1
+    src = src.replace(a, a + f"    memo_key = {key}\n    if memo_key in _LEXERS:\n        return _LEXERS[memo_key]\n")
+    b = "    return partial(\n        _tokenize_template,\n        rules=rules,\n"
+    assert src.count(b) == 1
+    head, tail = src.split(b)
+    end = tail.index("    )\n") + len("    )\n")
+    src = head + "    made = partial(\n        _tokenize_template,\n        rules=rules,\n" + tail[:end] + "    _LEXERS[memo_key] = made\n    return made\n" + tail[end:]
+    return {"liquid/lex.py": src}
+
+
 def selftest(repo: Repo):
     from ..selftest import Variant, text_edit
 
@@ -562,6 +662,9 @@ def selftest(repo: Repo):
     L = "liquid/lex.py"
     E = "liquid/environment.py"
     return [
+        lambda: Variant("hand-memo-keyed-on-the-parameter-tuple-is-silent", _hand_memo(repo, "(tag_start_string, tag_end_string, statement_start_string, statement_end_string, comment_start_string, comment_end_string)"), "", silent=True),
+        lambda: Variant("hand-memo-key-misses-comment-delimiters", _hand_memo(repo, "(tag_start_string, tag_end_string, statement_start_string, statement_end_string)"), "C11-MEMO"),
+        lambda: Variant("hand-memo-key-is-a-format-string", _hand_memo(repo, 'f"{tag_start_string}{tag_end_string}{statement_start_string}{statement_end_string}{comment_start_string}{comment_end_string}"'), "C11-MEMO"),
         v("raw-delimiter-in-pattern", L, "    comment_e = re.escape(comment_end_string)", "    comment_e = comment_end_string", "C11-ESCAPE"),
         v("raw-fstring", L, 'output_pattern = rf"{stmt_s}-?\\s*(?P<stmt>.*?)\\s*(?P<rss>-?){stmt_e}"', 'output_pattern = rf"{statement_start_string}-?\\s*(?P<stmt>.*?)\\s*(?P<rss>-?){stmt_e}"', "C11-ESCAPE"),
         v("tokenizer-swaps-args", E, "            self.tag_start_string,\n            self.tag_end_string,\n            self.statement_start_string,\n            self.statement_end_string,\n            self.comment_start_string,", "            self.statement_start_string,\n            self.tag_end_string,\n            self.tag_start_string,\n            self.statement_end_string,\n            self.comment_start_string,", "C11-PLUMB"),
